@@ -21,7 +21,7 @@ tvars == << l, gst, viol >>
 Key(e) == PatBytes(e.key[1], e.key[2], e.bits \div 8)
 Data(e) == PatBytes(e.data[1], e.data[2], e.data[3])
 
-MayBind(fam) == fam \in {"isal", "legacy", "int"}
+MayBind(fam) == fam \in {"isal", "legacy", "int", "precomp"}
 
 (***************************************************************************)
 (* C14: secrets that must not survive in vector registers or dead stack.   *)
